@@ -9,10 +9,10 @@ OPS = (["acquire", "L"], ["acquire_nowait", "L"], ["release", "L"], ["pc", ["acq
 
 
 class LockModel(Model):
-    def __init__(self, n=3, fast=False):
-        super().__init__(n=n, fast=fast)
+    def __init__(self, n=3, fast=False, adapter=False):
+        super().__init__(n=n, fast=fast, adapter=adapter)
         self.actors = ["A", "B", "C", "D"][:n]
-        self.objects = {"L": ["lock", {"fast": fast}]}
+        self.objects = {"L": ["lock", {"fast": fast, "adapter": adapter}]}
         self.watch = ["L"]
 
     def events(self, info):
